@@ -48,6 +48,13 @@ static json call_fpowm(mpz_t *tab, mpz_srcptr b, mpz_srcptr e, mpz_srcptr m) {
 static json call_fspowm(mpz_t *tab, mpz_srcptr b, mpz_srcptr e, mpz_srcptr m) {
 	return guard([&](mpz_ptr r) { tmcg_mpz_fspowm(tab, r, b, e, m); });
 }
+// result and exponent in one variable, as several verifiers of the library call the table-based routines
+static json call_fpowm_alias(mpz_t *tab, mpz_srcptr b, mpz_srcptr e, mpz_srcptr m) {
+	return guard([&](mpz_ptr r) { mpz_set(r, e); tmcg_mpz_fpowm(tab, r, b, r, m); });
+}
+static json call_fspowm_alias(mpz_t *tab, mpz_srcptr b, mpz_srcptr e, mpz_srcptr m) {
+	return guard([&](mpz_ptr r) { mpz_set(r, e); tmcg_mpz_fspowm(tab, r, b, r, m); });
+}
 static json call_fpowm_ui(mpz_t *tab, mpz_srcptr b, unsigned long e, mpz_srcptr m) {
 	return guard([&](mpz_ptr r) { tmcg_mpz_fpowm_ui(tab, r, b, e, m); });
 }
@@ -81,8 +88,9 @@ static json do_pow(const json &c) {
 			fp.push_back(call_fpowm(tab_full, b, e, m));
 			fs.push_back(call_fspowm(tab_full, b, e, m));
 			tmcg_mpz_fpowm_precompute(tab_min, b, m, ebits(e));     // the smallest table a caller may use for this exponent
-			fpm.push_back(call_fpowm(tab_min, b, e, m));
-			fsm.push_back(call_fspowm(tab_min, b, e, m));
+			// (every second exponent with result and exponent in the same variable)
+			fpm.push_back((k & 1) ? call_fpowm_alias(tab_min, b, e, m) : call_fpowm(tab_min, b, e, m));
+			fsm.push_back((k & 1) ? call_fspowm(tab_min, b, e, m) : call_fspowm_alias(tab_min, b, e, m));
 			if (e0 + k >= 0) fu.push_back(call_fpowm_ui(tab_min, b, (unsigned long)(e0 + k), m)); else fu.push_back(nullptr);
 			seam::clear_script();
 			bb.push_back(call_baseblind(b, e, m));
